@@ -2,8 +2,15 @@ package main
 
 import (
 	"fmt"
+	"regexp"
+	"strconv"
 	"strings"
 )
+
+var runningRe = regexp.MustCompile(`RUNNING: case \d+ kind=\S+ placement=(.*?) input=("(?:[^"\\]|\\.)*")`)
+
+// the last token of the input is the number 0 / -0 (nothing follows it)
+var lastTokenZero = regexp.MustCompile(`(^|[^0-9.eE+\-])-?0$`)
 
 // Plan describes one property's check.
 type Plan struct {
@@ -174,6 +181,38 @@ func init() {
 			return []*Run{
 				{Name: "jit", Flavor: "plain", NBatch: 16, TimeoutS: n(900, 3000)},
 				{Name: "vm", Flavor: "plain", NBatch: n(4, 16), Env: []string{"SONIC_ENCODER_USE_VM=1"}, TimeoutS: n(900, 3000)},
+			}
+		},
+	}
+	// crash signatures of open findings in native code: decided on the input the worker recorded
+	// (<log>.cur) before it died and on the innermost native frame.
+	runningInput := func(v Violation) (string, string, bool) {
+		m := runningRe.FindStringSubmatch(fmt.Sprint(v.Detail))
+		if m == nil {
+			return "", "", false
+		}
+		in, err := strconv.Unquote(m[2])
+		return m[1], in, err == nil
+	}
+	crashWitness["B42"], crashWitness["B43"] = true, true
+	crashSigs["B42"] = func(v Violation) bool {
+		pl, in, ok := runningInput(v)
+		return ok && strings.Contains(v.Msg, "native _value") && strings.Contains(pl, "guard") && lastTokenZero.MatchString(in)
+	}
+	crashSigs["B43"] = func(v Violation) bool {
+		pl, in, ok := runningInput(v)
+		return ok && strings.Contains(v.Msg, "native _") && strings.Contains(pl, "guard") && len(in) <= 3 && strings.ContainsAny(in, "tnf")
+	}
+	plans["C05"] = &Plan{
+		Level: "exploration",
+		Rule: "every input (block sweeps: 6 document shapes and plain strings x length 0..L x position x 16 special byte groups; every prefix of seeded documents; seeded random/mutated documents, raw byte strings up to 9000 bytes, escape bodies, number literals) is run through ~45 byte-consuming entry points (Valid/ValidString, UnmarshalString into interface{} under 3 configs, struct, RawMessage, map, []float64, []int64, string, []byte, decoder.Decoder with DisallowUnknownFields, Skip, Get/GetFromString with 7 paths, NewRaw+LoadAll+MarshalJSON, Searcher, Node walk, Preorder, Marshal of RawMessage/Number; Quote, unquote, HTMLEscape, utf8 Validate/ValidateString/CorrectWith, Marshal of string/map key/pointer/`,string` field/[]byte under 2 configs, ast.NewString) WITHOUT copying: once on a heap copy and then on the same bytes (b) ending exactly at a PROT_NONE page, (c) starting exactly after a PROT_NONE page, (d) at offsets 0, 63 and two seeded offsets from a 64-byte boundary followed by a continuation that would change the result if read (digits, quote, escape, brackets, exponent, UTF-8 continuation bytes, NULs, base64 padding), (e) 1-40 bytes before a PROT_NONE page with such a fill. Per-API outcome (error class, position, hash of the error text, value digest) must be identical in all placements; a read outside the input in (b)/(c)/(e) is a fault that kills the worker and is reported with the running case. Runs: AVX2 table, SSE table, optdec. distinct = hash(kind, input)",
+		Assumptions: []string{"mmap/mprotect guard pages of the Linux kernel fault on any access; the Go runtime turns the fault into a fatal error that the orchestrator sees as a worker crash", "only executions actually produced are decided: held on these inputs and placements, not for all inputs"},
+		MinEvals:    8000, MinEvalsThorough: 400000,
+		Runs: func(string) []*Run {
+			return []*Run{
+				{Name: "avx2", Flavor: "plain", NBatch: 16, TimeoutS: n(900, 6000)},
+				{Name: "sse", Flavor: "plain", NBatch: n(8, 16), Env: []string{"SONIC_MODE=noavx2"}, TimeoutS: n(900, 6000)},
+				{Name: "optdec", Flavor: "plain", NBatch: n(4, 16), Env: []string{"SONIC_USE_OPTDEC=1"}, TimeoutS: n(900, 6000)},
 			}
 		},
 	}
